@@ -866,7 +866,7 @@ func (r *EngineRunner) Exec(f []string) (res string) {
 		return r.hintCheck()
 	case "open2", "openchild", "openbad", "openrace", "openbg":
 		return r.execLock(f)
-	case "concsched", "concpark", "concstress", "concmix":
+	case "concsched", "concpark", "concstress", "concmix", "concbg":
 		return r.execConc(f)
 	case "flipsweep": // E flipsweep <maxflips> <seed> <cfg 6 fields>
 		return r.flipSweep(f[4:10], atoi(f[2]), NewRng(uint64(atou(f[3]))))
